@@ -656,6 +656,18 @@ func runC41(c c41Case, r *ev.Rec) error {
 	}
 
 	var known error
+	// Everything earlier requests offered per (series, timestamp): with an out-of-order window two
+	// samples of one timestamp coexist and a later request can flip which of them queries show.
+	sentBefore := map[string]map[int64]map[string]bool{}
+	remember := func(key string, t int64, repr string) {
+		if sentBefore[key] == nil {
+			sentBefore[key] = map[int64]map[string]bool{}
+		}
+		if sentBefore[key][t] == nil {
+			sentBefore[key][t] = map[string]bool{}
+		}
+		sentBefore[key][t][repr] = true
+	}
 	for ri, rq := range c.Reqs {
 		decoded := make([]c41Decoded, len(rq.Series))
 		for i, s := range rq.Series {
@@ -822,6 +834,9 @@ func runC41(c c41Case, r *ev.Rec) error {
 				}
 				real := explained(key, t, v, fl) || explained(key, t, v, hs)
 				byST := v.zero && stZero[key][t]
+				if _, existed := before.samples[key][t]; existed && c.OOO && !real && !byST && (sentBefore[key][t][v.repr] || (v.zero && sentBefore[key][t]["<st-zero>"])) {
+					continue // the other one of two coexisting samples of this timestamp became visible
+				}
 				if !real && !byST {
 					return ev.Failf("%s: soundness: stored %s at t=%d in series %q is not a sample of any valid series of the request", where, v.repr, t, key)
 				}
@@ -991,6 +1006,17 @@ func runC41(c c41Case, r *ev.Rec) error {
 						return ev.Failf("%s: completeness: out-of-order sample at t=%d of valid series %q inside the out-of-order window was acknowledged but storage holds nothing at that time", where, e.t, e.key)
 					}
 				}
+			}
+		}
+		for _, e := range fl {
+			remember(e.key, e.t, e.val.repr)
+		}
+		for _, e := range hs {
+			remember(e.key, e.t, e.val.repr)
+		}
+		for key, m := range stZero {
+			for t := range m {
+				remember(key, t, "<st-zero>")
 			}
 		}
 		before = after
